@@ -128,6 +128,16 @@ type Ans = Option<u128>;
 trait Subj: Send + Sync {
     fn ask(&self, q: &Q) -> Ans;
     fn bytes(&self) -> Vec<u8>;
+    /// another value in the same abstract state: 1 = clone(), otherwise deserialize(serialize(..))
+    fn copy(&self, how: u8) -> Arc<dyn Subj>;
+}
+
+fn copy_of<V: Clone + Serialize + serde::de::DeserializeOwned>(v: &V, how: u8) -> V {
+    if how == 1 {
+        v.clone()
+    } else {
+        bincode::deserialize(&bincode::serialize(v).unwrap()).unwrap()
+    }
 }
 
 struct TreeS<X: Tree>(X);
@@ -146,6 +156,9 @@ impl<X: Tree> Subj for TreeS<X> {
     }
     fn bytes(&self) -> Vec<u8> {
         bincode::serialize(&self.0).unwrap_or_default()
+    }
+    fn copy(&self, how: u8) -> Arc<dyn Subj> {
+        Arc::new(TreeS(copy_of(&self.0, how)))
     }
 }
 struct QuadS<X: QuadRS>(X);
@@ -166,6 +179,9 @@ impl<X: QuadRS> Subj for QuadS<X> {
     fn bytes(&self) -> Vec<u8> {
         bincode::serialize(&self.0).unwrap_or_default()
     }
+    fn copy(&self, how: u8) -> Arc<dyn Subj> {
+        Arc::new(QuadS(copy_of(&self.0, how)))
+    }
 }
 struct BinS<X: BinRS>(X);
 impl<X: BinRS> Subj for BinS<X> {
@@ -183,6 +199,9 @@ impl<X: BinRS> Subj for BinS<X> {
     }
     fn bytes(&self) -> Vec<u8> {
         bincode::serialize(&self.0).unwrap_or_default()
+    }
+    fn copy(&self, how: u8) -> Arc<dyn Subj> {
+        Arc::new(BinS(copy_of(&self.0, how)))
     }
 }
 struct DArrS<const S0: bool>(DArray<S0>);
@@ -208,6 +227,9 @@ impl<const S0: bool> Subj for DArrS<S0> {
     fn bytes(&self) -> Vec<u8> {
         bincode::serialize(&self.0).unwrap_or_default()
     }
+    fn copy(&self, how: u8) -> Arc<dyn Subj> {
+        Arc::new(DArrS::<S0>(copy_of(&self.0, how)))
+    }
 }
 struct BitsS(BitVector);
 impl Subj for BitsS {
@@ -224,6 +246,9 @@ impl Subj for BitsS {
     }
     fn bytes(&self) -> Vec<u8> {
         bincode::serialize(&self.0).unwrap_or_default()
+    }
+    fn copy(&self, how: u8) -> Arc<dyn Subj> {
+        Arc::new(BitsS(copy_of(&self.0, how)))
     }
 }
 
@@ -431,7 +456,9 @@ enum CCase {
     Sched { subj: SubjDesc, threads: u8, per_thread: u8, batches: usize },
     Stress { subj: SubjDesc, threads: u8, rounds: usize },
     /// instruction-level preemption exploration (bound 1) of query pairs after a prefix history
-    Preempt { subj: SubjDesc, max_triples: usize },
+    /// `fresh`: 0 = one instance serves all triples (histories accumulate); 1 / 2 = every triple runs on its own never-queried
+    /// clone / deserialized copy of a never-queried master (first-use effects such as lazily filled caches)
+    Preempt { subj: SubjDesc, max_triples: usize, #[serde(default)] fresh: u8 },
 }
 
 fn fmt_q(q: &Q) -> String {
@@ -626,11 +653,16 @@ fn run_stress(ctx: &mut Ctx, d: &SubjDesc, threads: u8, rounds: usize) {
     let bad = AtomicU64::new(0);
     let first_bad = std::sync::Mutex::new(None::<String>);
     let total = AtomicU64::new(0);
-    std::thread::scope(|sc| {
-        for t in 0..threads as usize {
-            let (s, alpha, solo, bad, first_bad, total) = (&s, &alpha, &solo, &bad, &first_bad, &total);
-            sc.spawn(move || {
-                for r in 0..rounds {
+    // round 0 runs on the instance that gave the sequential answers; every later round on a never-queried clone /
+    // deserialized copy of it, all threads released together (first-use effects)
+    for r in 0..rounds {
+        let inst: Arc<dyn Subj> = if r == 0 { s.clone() } else { s.copy(1 + (r % 2) as u8) };
+        let barrier = std::sync::Barrier::new(threads as usize);
+        std::thread::scope(|sc| {
+            for t in 0..threads as usize {
+                let (s, alpha, solo, bad, first_bad, total, barrier) = (&inst, &alpha, &solo, &bad, &first_bad, &total, &barrier);
+                sc.spawn(move || {
+                    barrier.wait();
                     // thread t walks the alphabet with its own stride; consecutive arguments included
                     for j in 0..alpha.len() {
                         let i = (j * (1 + t % 3) + t + r) % alpha.len();
@@ -644,10 +676,10 @@ fn run_stress(ctx: &mut Ctx, d: &SubjDesc, threads: u8, rounds: usize) {
                             }
                         }
                     }
-                }
-            });
-        }
-    });
+                });
+            }
+        });
+    }
     ctx.evals += total.load(Relaxed);
     ctx.add("free_running_queries", total.load(Relaxed));
     if bad.load(Relaxed) > 0 {
@@ -755,8 +787,10 @@ fn stepped_ask(s: &dyn Subj, q: &Q) -> Result<Ans, String> {
     r
 }
 
-fn run_preempt(ctx: &mut Ctx, d: &SubjDesc, max_triples: usize) {
-    let Some((s, alpha)) = make_subject(ctx, d, 400, true) else { return };
+fn run_preempt(ctx: &mut Ctx, d: &SubjDesc, max_triples: usize, fresh_mode: u8) {
+    let Some((master, alpha)) = make_subject(ctx, d, 400, true) else { return };
+    // fresh_mode 0: the master itself is queried; otherwise it never is, and the purity pass runs on a copy of it
+    let s: Arc<dyn Subj> = if fresh_mode == 0 { master.clone() } else { in_arena(true, || master.copy(fresh_mode)) };
     text_range();
     unsafe {
         let mut sa: libc::sigaction = std::mem::zeroed();
@@ -855,6 +889,8 @@ fn run_preempt(ctx: &mut Ctx, d: &SubjDesc, max_triples: usize) {
                     break 'outer;
                 }
                 triples += 1;
+                // the instance this triple runs on
+                let s: Arc<dyn Subj> = if fresh_mode == 0 { s.clone() } else { in_arena(true, || master.copy(fresh_mode)) };
                 // sequential prefix
                 for q in p {
                     let _ = ask(&*s, q);
@@ -922,7 +958,7 @@ impl Case for CCase {
             CCase::History { subj, cap, queries } => run_history(ctx, subj, *cap, queries),
             CCase::Sched { subj, threads, per_thread, batches } => run_sched(ctx, subj, *threads, *per_thread, *batches),
             CCase::Stress { subj, threads, rounds } => run_stress(ctx, subj, *threads, *rounds),
-            CCase::Preempt { subj, max_triples } => run_preempt(ctx, subj, *max_triples),
+            CCase::Preempt { subj, max_triples, fresh } => run_preempt(ctx, subj, *max_triples, *fresh),
         }
     }
     fn weight(&self) -> u64 {
@@ -953,12 +989,21 @@ fn subjects(th: bool) -> Vec<SubjDesc> {
         v.push(SubjDesc::Quad { ty: ty.into(), gen: Gen::Boundary { n: 9000, pat: Pat::Periodic, sigma: 4 } });
         v.push(SubjDesc::Quad { ty: ty.into(), gen: Gen::Boundary { n: 8300, pat: Pat::Blocks, sigma: 4 } });
         v.push(SubjDesc::Quad { ty: ty.into(), gen: Gen::Boundary { n: 20000, pat: Pat::Runs(2048), sigma: 3 } });
+        // long inputs with a rare symbol: its select searches a range of more than 64 superblocks (every tier of the search)
+        v.push(SubjDesc::Quad { ty: ty.into(), gen: Gen::Boundary { n: 150_000, pat: Pat::Rare(1), sigma: 2 } });
+        v.push(SubjDesc::Quad { ty: ty.into(), gen: Gen::Boundary { n: 300_000, pat: Pat::ConstThenPeriodic, sigma: 4 } });
+    }
+    for al in ["QWT256", "QWT512Pfs", "HQWT256", "WT"] {
+        v.push(SubjDesc::Tree { alias: al.into(), elem: "u8".into(), gen: Gen::Boundary { n: 150_000, pat: Pat::Rare(2), sigma: 9 }, vmap: if al.starts_with('H') { "hid".into() } else { "id".into() } });
     }
     let bitgens = vec![
         BitGen::Pat { n: 70_000, pat: BitPat::Alt },
         BitGen::Pat { n: 40_000, pat: BitPat::Runs(512) },
         BitGen::Pat { n: 70_000, pat: BitPat::OnePer(7) },
         BitGen::Groups { groups: vec![Grp::D, Grp::S, Grp::D], partial: 200, pk: Grp::D, lead: 3, tail: 9, complement: false },
+        // very sparse / very dense long vectors: the select searches cross many blocks between two samples
+        BitGen::Pat { n: 600_000, pat: BitPat::OnePer(65537) },
+        BitGen::Pat { n: 600_000, pat: BitPat::ZeroPer(65537) },
     ];
     for g in &bitgens {
         for ty in ["RSNarrow", "RSWide"] {
@@ -982,7 +1027,9 @@ fn enumerate(args: &Args) -> Vec<CCase> {
         v.push(CCase::Sched { subj: s.clone(), threads: 2, per_thread: 3, batches: if th { 12 } else { 3 } });
         v.push(CCase::Sched { subj: s.clone(), threads: 3, per_thread: 2, batches: if th { 6 } else { 1 } });
         v.push(CCase::Stress { subj: s.clone(), threads: 8, rounds: if th { 40 } else { 8 } });
-        v.push(CCase::Preempt { subj: s.clone(), max_triples: if th { 1200 } else { 260 } });
+        for fresh in 0..3u8 {
+            v.push(CCase::Preempt { subj: s.clone(), max_triples: if th { 1200 } else if fresh == 0 { 260 } else { 90 }, fresh });
+        }
     }
     v
 }
